@@ -18,11 +18,18 @@ for name in sorted(os.listdir(os.path.join(VERIF, 'seeded'))):
     if props and m.get('property') not in props:
         continue
     seeds.append((name, d, m))
+JOBS = 4
+for a in sys.argv[1:]:
+    if a.startswith('-j'):
+        JOBS = max(1, int(a[2:] or 4))
 base = tempfile.mkdtemp(prefix='pvx-selftest-', dir=os.environ.get('PVX_SCRATCH', '/var/tmp'))
 ok = True
 results = []
-try:
-    scratch = os.path.join(base, 'repo')
+import re, threading, queue
+lock = threading.Lock()
+
+
+def prepare(scratch):
     os.makedirs(scratch)
     subprocess.run('git -C /repo archive HEAD | tar -x -C %s' % scratch, shell=True, check=True)
     # carry over uncommitted edits of /repo's working tree, if any
@@ -30,37 +37,61 @@ try:
     if diff.strip():
         subprocess.run(['git', 'apply', '--unsafe-paths', '--directory', scratch], input=diff, text=True, cwd='/')
     subprocess.run('git init -q && git add -A && git -c user.email=x@x -c user.name=x commit -qm base', shell=True, cwd=scratch, check=True)
-    for name, d, m in seeds:
+
+
+def worker(i, q):
+    global ok
+    scratch = os.path.join(base, 'repo-%d' % i)
+    prepare(scratch)
+    env = dict(os.environ, PVX_REPO=scratch, PVX_EVIDENCE_DIR=os.path.join(base, 'evidence-%d' % i), PVX_TARGET=os.path.join(base, 'target-%d' % i))
+    while True:
+        try:
+            name, d, m = q.get_nowait()
+        except queue.Empty:
+            return
         expected = bool(m.get('check_result', {}).get('caught'))
         r = subprocess.run(['git', 'apply', os.path.join(d, 'patch.diff')], cwd=scratch, stdout=subprocess.PIPE, stderr=subprocess.STDOUT, text=True)
         if r.returncode != 0:
             r = subprocess.run(['git', 'apply', '-3', os.path.join(d, 'patch.diff')], cwd=scratch, stdout=subprocess.PIPE, stderr=subprocess.STDOUT, text=True)
         if r.returncode != 0:
-            results.append((name, 'patch-does-not-apply', expected))
+            with lock:
+                results.append((name, 'patch-does-not-apply', expected))
+                print('%-28s %-8s expected=%s' % (name, 'NO-APPLY', 'caught' if expected else 'missed'), flush=True)
             subprocess.run('git reset -q; git checkout -q -- .; git clean -fdq', shell=True, cwd=scratch)
             continue
-        env = dict(os.environ, PVX_REPO=scratch, PVX_EVIDENCE_DIR=os.path.join(base, 'evidence'))
         c = subprocess.run([os.path.join(VERIF, 'check'), m['property'], '--tier', 'quick'], env=env, stdout=subprocess.PIPE, stderr=subprocess.STDOUT, text=True)
         fired = [l.strip() for l in c.stdout.splitlines() if l.startswith('  C')]
         caught = 'VIOLATION property=' in c.stdout
-        results.append((name, 'caught' if caught else 'missed', expected))
-        if UPDATE:
-            import re
-            rules = sorted(set('%s %s' % x for x in re.findall(r'^\s+(C\d+\.R\w+) (\S+)', c.stdout, re.M)))
-            m.setdefault('check_result', {})
-            if m['check_result'].get('caught') != caught or (caught and m['check_result'].get('rules_fired') != rules):
-                if 'caught' in m['check_result'] and m['check_result'].get('caught') is False and caught:
-                    m['check_result']['missed_at_import'] = True
-                m['check_result']['caught'] = caught
-                m['check_result']['rules_fired'] = rules
-                json.dump(m, open(os.path.join(d, 'meta.json'), 'w'), indent=1)
-            expected = caught if UPDATE else expected
-        print('%-12s %-8s expected=%s %s' % (name, 'caught' if caught else 'MISSED', 'caught' if expected else 'missed', (fired[0][:140] if fired else '')), flush=True)
-        if expected and not caught:
-            ok = False
+        with lock:
+            if UPDATE:
+                rules = sorted(set('%s %s' % x for x in re.findall(r'^\s+(C\d+\.R\w+) (\S+)', c.stdout, re.M)))
+                m.setdefault('check_result', {})
+                if m['check_result'].get('caught') != caught or (caught and m['check_result'].get('rules_fired') != rules):
+                    if m['check_result'].get('caught') is False and caught:
+                        m['check_result']['missed_at_import'] = True
+                    m['check_result']['caught'] = caught
+                    m['check_result']['rules_fired'] = rules
+                    json.dump(m, open(os.path.join(d, 'meta.json'), 'w'), indent=1)
+                expected = caught
+            results.append((name, 'caught' if caught else 'missed', expected))
+            print('%-28s %-8s expected=%s %s' % (name, 'caught' if caught else 'MISSED', 'caught' if expected else 'missed', (fired[0][:120] if fired else '')), flush=True)
+            if expected and not caught:
+                ok = False
         subprocess.run('git reset -q; git checkout -q -- .; git clean -fdq', shell=True, cwd=scratch)
+
+
+try:
+    q = queue.Queue()
+    for x in seeds:
+        q.put(x)
+    ths = [threading.Thread(target=worker, args=(i, q)) for i in range(min(JOBS, max(1, len(seeds))))]
+    for t in ths:
+        t.start()
+    for t in ths:
+        t.join()
 finally:
     shutil.rmtree(base, ignore_errors=True)
+results.sort()
 json.dump([{'seed': n, 'result': r, 'expected_caught': e} for n, r, e in results], open(os.path.join(VERIF, '.cache', 'selftest-last.json'), 'w'), indent=1)
 print('selftest: %d seeds, %d caught, %d expected-caught missed' % (len(results), sum(1 for _, r, _ in results if r == 'caught'), sum(1 for _, r, e in results if e and r != 'caught')))
 sys.exit(0 if ok else 1)
